@@ -8,6 +8,7 @@ into a Lean definition of type `Option <result>` (`none` = the exception Python 
 * `if c: ... else: ...` assigning variables                        ->  `match (if c then (..) else (..)) with | (vars) => <rest>`
 * `for v in xs: ...` / `for a, b in zip(xs, ys): ...`              ->  an auxiliary definition for the loop body and
                                                                        `List.foldl body (carried variables) xs`
+* `x is None` / `x is not None` on variables of an `Option` type -> `x.isNone` / `x.isSome`
 * expressions: names, integer constants, `[]`, `[e]`, `[e] * n`, `+`, `len`, `xs[0]`, `xs[1:]`, `xs[idx]`,
   `a == b`, `a != b` (element comparisons are parameters of the generated definition: for floats they are
   IEEE comparisons), `a or b` on integers (Python truthiness: `a if a != 0 else b`), and the numpy calls
@@ -31,6 +32,8 @@ RESERVED = {"default", "end", "from", "in", "at", "fun", "open", "then", "do", "
 
 def ident(pyname):
     s = pyname.replace(".", "_")
+    if s.startswith("_"):
+        s = "u" + s  # (`_length` -> `u_length`: a leading underscore marks an unused binder in Lean)
     return s + "_" if s in RESERVED else s
 
 
@@ -210,6 +213,13 @@ class Translator:
                 x = self.expr(n.left.args[0], scope)
                 self.pure(x)
                 return V("%s %s" % (sp.env[ast.unparse(right)][0], self.paren(x.term)), "Bool")
+            # `x is None` / `x is not None` on an optional attribute
+            if isinstance(op, (ast.Is, ast.IsNot)) and isinstance(right, ast.Constant) and right.value is None:
+                x = self.expr(n.left, scope)
+                self.pure(x)
+                if not x.ty.startswith("Option "):
+                    raise Untranslatable("`is None` on a %s" % x.ty)
+                return V("%s.%s" % (self.paren(x.term), "isNone" if isinstance(op, ast.Is) else "isSome"), "Bool")
             a, b = self.expr(n.left, scope), self.expr(right, scope)
             self.pure(a, b)
             if a.ty == b.ty == "Nat":
